@@ -102,7 +102,7 @@ class BlockConversionPass(BasePass):
                     circuit.replace_gate(point, vgate, op.location, params)
 
         # CircuitGates -> Variable
-        if self.convert_constant and self.convert_target == 'variable':
+        if self.convert_circuitgates and self.convert_target == 'variable':
             _logger.debug('Converting circuit gates to variable gates.')
 
             for cycle, op in circuit.operations_with_cycles():
